@@ -275,6 +275,9 @@ func checkRegistryFI(p *core.Program, r *core.Report, rule string, fi *core.Func
 	for _, ent := range entries {
 		cl := ent.Body
 		created := entryCreated(info, ent)
+		if created == nil {
+			created = poolCreated(fi, ent)
+		}
 		for _, ke := range ent.Keys {
 			tv, ok := info.Types[ke]
 			name := types.ExprString(ke)
@@ -623,4 +626,71 @@ func factoryFallback(list []ast.Stmt) ast.Stmt {
 	default:
 		return l
 	}
+}
+
+// poolCreated: an entry that takes its object out of a package-level sync.Pool (directly, or by handing
+// &pool to a helper) creates what the pool's New function returns.
+func poolCreated(fi *core.FuncInfo, e regEntry) *types.Named {
+	info := fi.Pkg.TypesInfo
+	var created *types.Named
+	ast.Inspect(e.Body, func(n ast.Node) bool {
+		id, ok := n.(*ast.Ident)
+		if !ok || created != nil {
+			return true
+		}
+		v, ok := info.Uses[id].(*types.Var)
+		if !ok || v.Pkg() == nil || v.Parent() != v.Pkg().Scope() {
+			return true
+		}
+		if nt := namedOf(v.Type()); nt == nil || nt.Obj().Name() != "Pool" || nt.Obj().Pkg() == nil || nt.Obj().Pkg().Path() != "sync" {
+			return true
+		}
+		for _, f := range fi.Pkg.Syntax {
+			for _, d := range f.Decls {
+				gd, ok := d.(*ast.GenDecl)
+				if !ok || gd.Tok != token.VAR {
+					continue
+				}
+				for _, sp := range gd.Specs {
+					vs := sp.(*ast.ValueSpec)
+					for i, nm := range vs.Names {
+						if info.Defs[nm] != v || i >= len(vs.Values) {
+							continue
+						}
+						lit, ok := ast.Unparen(vs.Values[i]).(*ast.CompositeLit)
+						if !ok {
+							continue
+						}
+						for _, el := range lit.Elts {
+							kv, ok := el.(*ast.KeyValueExpr)
+							if !ok {
+								continue
+							}
+							if k, ok := kv.Key.(*ast.Ident); !ok || k.Name != "New" {
+								continue
+							}
+							fl, ok := ast.Unparen(kv.Value).(*ast.FuncLit)
+							if !ok {
+								continue
+							}
+							ast.Inspect(fl.Body, func(m ast.Node) bool {
+								if rs, ok := m.(*ast.ReturnStmt); ok && len(rs.Results) == 1 {
+									if tv, ok := info.Types[rs.Results[0]]; ok {
+										if nn := namedOf(tv.Type); nn != nil {
+											if _, isIface := nn.Underlying().(*types.Interface); !isIface {
+												created = nn
+											}
+										}
+									}
+								}
+								return true
+							})
+						}
+					}
+				}
+			}
+		}
+		return true
+	})
+	return created
 }
